@@ -402,6 +402,41 @@ func C04(r *eng.Run) {
 		w.CellN("triples", n, true)
 	})
 	r.Phase("A5 triples", t0, nil)
+
+	// R: values reached by operation sequences: every depth-1 state against every depth-1 state, and every
+	// reached state against its own cohort members, its one-unit neighbours and a stride of the others
+	l1, l2 := ReachedStates(r)
+	l1s := strideBits(l1, 1500)
+	if r.Thorough() {
+		l1s = l1
+	}
+	others := strideBits(l2, 40)
+	reachedPhase(r, "R values reached by operation sequences", append(append([]ref.Bits{}, l1...), strideBits(l2, 20000)...), func(w *eng.W, b ref.Bits, v ref.Val) {
+		checkCmpPair(w, b, b)
+		cs, qs := Cohort(v.C, v.Q)
+		for i := range cs {
+			checkCmpPair(w, b, MkBits(v.Neg, cs[i], qs[i]))
+			checkCmpPair(w, MkBits(!v.Neg, cs[i], qs[i]), b)
+		}
+		one := big.NewInt(1)
+		if up := new(big.Int).Add(v.C, one); up.Cmp(ref.Cmax) <= 0 {
+			checkCmpPair(w, b, MkBits(v.Neg, up, v.Q))
+			checkCmpPair(w, MkBits(v.Neg, up, v.Q), b)
+		}
+		if v.C.Sign() > 0 {
+			dn := new(big.Int).Sub(v.C, one)
+			checkCmpPair(w, b, MkBits(v.Neg, dn, v.Q))
+			checkCmpPair(w, MkBits(v.Neg, dn, v.Q), b)
+		}
+		for _, o := range others {
+			checkCmpPair(w, b, o)
+		}
+		if b[15]%4 == 0 {
+			for _, o := range l1s {
+				checkCmpPair(w, b, o)
+			}
+		}
+	})
 	r.Require("product/order+0/adjexp+0", "product/order-1/adjexp+0", "product/order+1/adjexp+0", "near-equal/same-value-other-cohort", "special/nan-nan", "special/inf-zero", "special/zero-zero")
 }
 
